@@ -11,6 +11,8 @@ namespace c07
   template<typename DT> std::vector<double> getv(const DenseVector<DT, Index>& v) { std::vector<double> s((size_t)v.size()); for(Index i = 0; i < v.size(); ++i) s[(size_t)i] = (double)v.elements()[i]; return s; }
   template<typename DT> std::string bytes(const DenseVector<DT, Index>& v) { return v.size() ? std::string((const char*)v.elements(), v.size() * sizeof(DT)) : std::string(); }
 
+  /// decoder override for the '*_unfilt' targets (bit 0: convergence mode, bit 1: unit filter, bit 2: system matrix left unfiltered); the draws are still consumed
+  static int force_bits = 0;
   template<typename DT> NoneFilter<DT, Index> build_filter(NoneFilter<DT, Index>*, int, const std::vector<int>&, const std::vector<double>&) { return NoneFilter<DT, Index>(); }
   template<typename DT> UnitFilter<DT, Index> build_filter(UnitFilter<DT, Index>*, int n, const std::vector<int>& idx, const std::vector<double>& val)
   {
@@ -90,7 +92,7 @@ namespace c07
     lf.filter_mat(Af);
     // second practice of the callers (tutorial_06_global): the system matrix is left unfiltered and the solver's own
     // filter_def/filter_cor calls impose the constraints; the system being solved (and the oracle) is the same filtered one
-    const bool matfilt = !have_filter || !t.flag(1, 3);
+    const bool matfilt = !have_filter || !(int(t.flag(1, 3)) | (force_bits & 4));
     const Dense D = dense_of(Af);           // oracle view from the raw arrays (validated)
     const Dense Dsol = matfilt ? D : dense_of(Araw);   // what the solver's matrix.apply() sees
     VF_CHECK(D.r == n && D.c == n, "harness:matrix dims");
@@ -543,7 +545,7 @@ namespace c07
     // solver kind (0 on the tape = first = simplest)
     long tot = 0; for(int w : weights) tot += w; long r = long(t.raw() % uint32_t(tot)); size_t ki = 0; for(; ki < weights.size(); ++ki) { if(r < weights[ki]) break; r -= weights[ki]; }
     int kind = kinds[std::min(ki, kinds.size() - 1)];
-    bool conv_mode = !t.flag(1, 2);
+    bool conv_mode = !t.flag(1, 2); if(force_bits & 1) conv_mode = true;
     bool sym = needs_spd(kind) ? true : !t.flag(2, 3);
     if(kind == K_PMR || kind == K_PCGNR || kind == K_RICH) sym = t.flag(1, 2) ? false : true;
     double kcap = 1e4;
@@ -554,7 +556,7 @@ namespace c07
     }
     Sys sys = gen_sys(t, sym, maxn, kcap);
     // known finding c07-bicgstab-... style exclusions are applied by the callers through 'c'
-    bool unit = t.flag(1, 3);
+    bool unit = t.flag(1, 3); if(force_bits & 2) unit = true;
     std::vector<int> fidx; std::vector<double> fval;
     if(unit)
     {
